@@ -19,6 +19,23 @@ import (
 	"github.com/alecthomas/participle/v2/lexer"
 )
 
+// strGrammar: nested productions inside a "must not be empty" group, an optional group and a lookahead group
+type strGrammar struct {
+	A *strItem    `( @@? "x"? )!`
+	B []*strOther `( "(" @@* ")" )?`
+	C string      `(?= "!" ) @"!"`
+}
+type strItem struct {
+	N string   `@Ident`
+	K *strLeaf `@@?`
+}
+type strLeaf struct {
+	V string `@Int`
+}
+type strOther struct {
+	W string `@String`
+}
+
 type mappedGrammar struct {
 	Words []string `@(Ident | String | Int)*`
 }
@@ -344,6 +361,21 @@ func concHistory(args []string) error {
 			}
 			fmt.Printf("%s\ta parser with an Elide option naming an unknown token: first call %q, second call %q, first call on a fresh parser %q\n", status, first, second, fresh)
 		}
+	}
+	// Parser.String() is a function of the built parser: the same before and after failing parses whose messages render
+	// grammar nodes ("sub-expression ... cannot be empty", "expected ...")
+	{
+		mk := func() *participle.Parser[strGrammar] { return participle.MustBuild[strGrammar]() }
+		fresh := mk().String()
+		p := mk()
+		for _, in := range []string{"", "!", "( x", "a a", "1 !", "( ) !"} {
+			_, _ = p.ParseString("", in)
+		}
+		status, got := "ok", p.String()
+		if got != fresh {
+			status = "MISMATCH"
+		}
+		fmt.Printf("%s\tParser.String() after failing parses is %q; on a fresh parser %q\n", status, got, fresh)
 	}
 	// results handed out earlier must not change when the parser is used again (no aliasing of reused storage)
 	for _, e := range examples() {
